@@ -21,7 +21,7 @@ EXTENDS Naturals, Sequences, FiniteSets, TLC
 Methods   == {"GET", "PUT", "POST", "PATCH", "DELETE", "HEAD", "OPTIONS"}
 SegToks   == {"s1", "s2", "se"}            \* plain, with - . _ and digits, percent-escaped (denotes the decoded text)
 QKeys     == {"k1", "k2"}
-QVals     == {"v1", "ve", "e", "vq"}       \* plain, percent-escaped, empty, with raw `=` signs inside (the pair is cut at the first one only)
+QVals     == {"v1", "ve", "e", "vq", "vh"}       \* plain, percent-escaped, empty, with raw `=` signs inside (the pair is cut at the first one only), with `?` and `/` inside (the query begins at the first `?`)
 StdNames  == {"Host", "Accept", "CT"}      \* standard headers (CT = Content-Type)
 CustNames == {"XA", "XB"}                  \* custom headers
 \* every standard request header of the framework's table (minus the framing/connection ones), by registered name
